@@ -535,8 +535,34 @@ Definition check_type (fuel : nat) (e : texpr) (expected : cty) : cres texpr :=
   do e' <- constrain_type fuel e expected;
   if cty_eqb (ty_of e') expected then COk e' else CErr E_UnexpectedType.
 
+(* fix 64720dd: is_compound_number_expr -- the number literals of such an expression sit below the node *)
+Definition is_compound (e : texpr) : bool :=
+  match inner_of e with
+  | TOp _ _ _ | TUnaryOp _ _ | TIf _ _ _ | TMatch _ _ | TBlock _ => true
+  | _ => false
+  end.
+
+(* check_or_constrain_unsigned / _signed as every caller OUTSIDE constrain_type sees them (fix 64720dd):
+   the type test, then a compound expression whose type is not yet the expected one is constrained
+   DEEPLY (constrain_type), everything else as before.  Inside constrain_type the leaf arm is only
+   reached for non-compound nodes (the Match / UnaryOp / Op / Block / If arms come first), where the
+   new test is inert: constrain_type keeps using [check_or_constrain_unsigned] / [_signed]. *)
+Definition coc_unsigned_deep (fuel : nat) (e : texpr) (expected : unsigned_num_type) : cres texpr :=
+  if negb (cty_eqb (ty_of e) (CUnsigned expected)) && negb (is_uU (ty_of e))
+  then CErr E_UnexpectedType
+  else if negb (cty_eqb (ty_of e) (CUnsigned expected)) && is_compound e
+  then constrain_type fuel e (CUnsigned expected)
+  else check_or_constrain_unsigned e expected.
+
+Definition coc_signed_deep (fuel : nat) (e : texpr) (expected : signed_num_type) : cres texpr :=
+  if negb (cty_eqb (ty_of e) (CSigned expected)) && negb (is_sU (ty_of e)) && negb (is_uU (ty_of e))
+  then CErr E_UnexpectedType
+  else if negb (cty_eqb (ty_of e) (CSigned expected)) && is_compound e
+  then constrain_type fuel e (CSigned expected)
+  else check_or_constrain_signed e expected.
+
 (* unify: the two expressions with their new types, and the type *)
-Definition unify (e1 e2 : texpr) : cres (texpr * texpr * cty) :=
+Definition unify (fuel : nat) (e1 e2 : texpr) : cres (texpr * texpr * cty) :=
   let t1 := ty_of e1 in
   let t2 := ty_of e2 in
   let fin (r : texpr * texpr * cty) :=
@@ -544,17 +570,17 @@ Definition unify (e1 e2 : texpr) : cres (texpr * texpr * cty) :=
   if cty_eqb t1 t2 then fin (e1, e2, t1) else
   match t1, t2 with
   | CUnsigned UnspecifiedU, CUnsigned ty2 =>
-      do e1' <- check_or_constrain_unsigned e1 ty2; fin (e1', e2, CUnsigned ty2)
+      do e1' <- coc_unsigned_deep fuel e1 ty2; fin (e1', e2, CUnsigned ty2)
   | CUnsigned ty1, CUnsigned UnspecifiedU =>
-      do e2' <- check_or_constrain_unsigned e2 ty1; fin (e1, e2', CUnsigned ty1)
+      do e2' <- coc_unsigned_deep fuel e2 ty1; fin (e1, e2', CUnsigned ty1)
   | CUnsigned UnspecifiedU, CSigned ty2 =>
-      do e1' <- check_or_constrain_signed e1 ty2; fin (e1', e2, CSigned ty2)
+      do e1' <- coc_signed_deep fuel e1 ty2; fin (e1', e2, CSigned ty2)
   | CSigned ty1, CUnsigned UnspecifiedU =>
-      do e2' <- check_or_constrain_signed e2 ty1; fin (e1, e2', CSigned ty1)
+      do e2' <- coc_signed_deep fuel e2 ty1; fin (e1, e2', CSigned ty1)
   | CSigned UnspecifiedS, CSigned ty2 =>
-      do e1' <- check_or_constrain_signed e1 ty2; fin (e1', e2, CSigned ty2)
+      do e1' <- coc_signed_deep fuel e1 ty2; fin (e1', e2, CSigned ty2)
   | CSigned ty1, CSigned UnspecifiedS =>
-      do e2' <- check_or_constrain_signed e2 ty1; fin (e1, e2', CSigned ty1)
+      do e2' <- coc_signed_deep fuel e2 ty1; fin (e1, e2', CSigned ty1)
   | _, _ => CErr E_TypeMismatch
   end.
 
@@ -565,7 +591,7 @@ Fixpoint constrain_to_i32 (fuel : nat) (b : texpr) {struct fuel} : cres texpr :=
   match fuel with
   | O => CNoFuel
   | S f =>
-      do b1 <- (if is_uU (ty_of b) || is_sU (ty_of b) then check_or_constrain_signed b I32 else COk b);
+      do b1 <- (if is_uU (ty_of b) || is_sU (ty_of b) then coc_signed_deep fuel b I32 else COk b);
       do b2 <-
         match inner_of b1 with
         | TArrayLiteral es => do es' <- mapM (constrain_to_i32 f) es; COk (TE (TArrayLiteral es') (ty_of b1))
@@ -817,7 +843,7 @@ Definition s_join_iter : list N := Eval vm_compute in codes "join_iter"%string.
 Definition s_underscore : list N := Eval vm_compute in codes "_"%string.
 
 (* the accessor loop of VarAssign *)
-Fixpoint accs_loop (ce : cstate -> xexpr -> cres (texpr * cstate)) (D : defs)
+Fixpoint accs_loop (ce : cstate -> xexpr -> cres (texpr * cstate)) (fuel : nat) (D : defs)
     (st : cstate) (elem_ty : cty) (accs : list xaccessor)
   : cres (list taccessor * cty * cstate) :=
   match accs with
@@ -829,7 +855,7 @@ Fixpoint accs_loop (ce : cstate -> xexpr -> cres (texpr * cstate)) (D : defs)
             let array_ty := elem_ty in
             do elem_ty' <- expect_array_type elem_ty;
             do ri <- ce st index;
-            do index' <- check_or_constrain_unsigned (fst ri) Usize;
+            do index' <- coc_unsigned_deep fuel (fst ri) Usize;
             COk (TAArray array_ty index', elem_ty', snd ri)
         | XATuple index =>
             let tuple_ty := elem_ty in
@@ -852,7 +878,7 @@ Fixpoint accs_loop (ce : cstate -> xexpr -> cres (texpr * cstate)) (D : defs)
         end;
       match r1 with
       | (ta, t', st') =>
-          do r2 <- accs_loop ce D st' t' r;
+          do r2 <- accs_loop ce fuel D st' t' r;
           match r2 with (tas, tf, st'') => COk (ta :: tas, tf, st'') end
       end
   end.
@@ -917,7 +943,7 @@ Fixpoint check_expr (fuel : nat) (D : defs) (st : cstate) (e : xexpr) {struct fu
         do ra <- check_expr f D st arr;
         do ri <- check_expr f D (snd ra) index;
         do elem_ty <- expect_array_type (ty_of (fst ra));
-        do index' <- check_or_constrain_unsigned (fst ri) Usize;
+        do index' <- coc_unsigned_deep f (fst ri) Usize;
         COk (TE (TArrayAccess (fst ra) index') elem_ty, snd ri)
     | XTupleLiteral values =>
         do r <- mapM_st (check_expr f D) st values;
@@ -945,7 +971,7 @@ Fixpoint check_expr (fuel : nat) (D : defs) (st : cstate) (e : xexpr) {struct fu
         let st' := snd ry in
         match op with
         | BAdd | BSub | BMul | BDiv | BMod =>
-            do u <- unify x' y';
+            do u <- unify f x' y';
             match u with (x2, y2, ty) =>
               do _ <- expect_num_type ty; COk (TE (TOp op x2 y2) ty, st') end
         | BShortCircuitAnd | BShortCircuitOr =>
@@ -954,19 +980,19 @@ Fixpoint check_expr (fuel : nat) (D : defs) (st : cstate) (e : xexpr) {struct fu
             | _, _ => CErr E_UnexpectedType
             end
         | BBitAnd | BBitXor | BBitOr =>
-            do u <- unify x' y';
+            do u <- unify f x' y';
             match u with (x2, y2, ty) =>
               do _ <- expect_bool_or_num_type ty; COk (TE (TOp op x2 y2) ty, st') end
         | BGreaterThan | BLessThan =>
-            do u <- unify x' y';
+            do u <- unify f x' y';
             match u with (x2, y2, ty) =>
               do _ <- expect_num_type ty; COk (TE (TOp op x2 y2) CBool, st') end
         | BEq | BNotEq =>
-            do u <- unify x' y';
+            do u <- unify f x' y';
             match u with (x2, y2, _) => COk (TE (TOp op x2 y2) CBool, st') end
         | BShiftLeft | BShiftRight =>
             do _ <- expect_num_type (ty_of x');
-            do y2 <- check_or_constrain_unsigned y' U8;
+            do y2 <- coc_unsigned_deep f y' U8;
             COk (TE (TOp op x' y2) (ty_of x'), st')
         end
     | XBlock stmts =>
@@ -998,7 +1024,7 @@ Fixpoint check_expr (fuel : nat) (D : defs) (st : cstate) (e : xexpr) {struct fu
         do ra <- check_expr f D (snd rc) a;
         do rb <- check_expr f D (snd ra) b;
         do c' <- check_type f (fst rc) CBool;
-        do u <- unify (fst ra) (fst rb);
+        do u <- unify f (fst ra) (fst rb);
         match u with (a', b', ty) => COk (TE (TIf c' a' b') ty, snd rb) end
     | XCast ty x =>
         do ty' <- concrete_of D ty;
@@ -1047,9 +1073,9 @@ Fixpoint check_expr (fuel : nat) (D : defs) (st : cstate) (e : xexpr) {struct fu
                                  if negb (cty_eqb ret_ty (ty_of (snd pc))) then
                                    match ret_ty with
                                    | CUnsigned expected =>
-                                       do x <- check_or_constrain_unsigned (snd pc) expected; COk (fst pc, x)
+                                       do x <- coc_unsigned_deep f (snd pc) expected; COk (fst pc, x)
                                    | CSigned expected =>
-                                       do x <- check_or_constrain_signed (snd pc) expected; COk (fst pc, x)
+                                       do x <- coc_signed_deep f (snd pc) expected; COk (fst pc, x)
                                    | _ => CErr E_UnexpectedType
                                    end
                                  else COk pc) (fst rc);
@@ -1129,7 +1155,7 @@ with check_stmt (fuel : nat) (D : defs) (st : cstate) (s : xstmt) {struct fuel}
     | XSVarAssign identifier accessors value =>
         match env_get (st_env st) identifier with
         | Some (elem_ty, true) =>
-            do ra <- accs_loop (check_expr f D) D st elem_ty accessors;
+            do ra <- accs_loop (check_expr f D) f D st elem_ty accessors;
             match ra with (typed_accessors, elem_ty', st1) =>
               do rv <- check_expr f D st1 value;
               do value' <- check_type f (fst rv) elem_ty';
